@@ -191,4 +191,83 @@ func (*atxHeadingParser).Open
 func (*autoLinkParser).Parse
   requires text.rdOK(block) && text.rdLive(block) && text.rdPad(block) == 0
   requires [C05_src] text.docSrc(block)
+
+// ======== dispatch tables (C20): built once, in ascending priority; trigger-less block parsers after the triggered ones ========
+ghost var pOptState() int
+// assumed of every component: SetOption touches the component's own configuration only, Trigger has no effect
+iface parser.SetOptioner.SetOption
+  modifies pOptState
+iface parser.BlockParser.Trigger
+  modifies nothing
+iface parser.InlineParser.Trigger
+  modifies nothing
+
+// add*: the new component goes to the END of every list it joins; nothing already in a list moves or disappears
+macro keptPrefix(now_, was_) = len(was_) <= len(now_) && (forall k int {now_[k]} :: (0 <= k && k < len(was_)) ==> now_[k] == was_[k])
+func (*parser).addASTTransformer
+  ensures [appended] len(p.astTransformers) == old(len(p.astTransformers)) + 1 && p.astTransformers[len(p.astTransformers) - 1] == v.Value
+  ensures [kept] forall k int {p.astTransformers[k]} :: (0 <= k && k < old(len(p.astTransformers))) ==> p.astTransformers[k] == old(p.astTransformers[k])
+  modifies p.astTransformers, contents(p.astTransformers), pOptState
+func (*parser).addParagraphTransformer
+  ensures [appended] len(p.paragraphTransformers) == old(len(p.paragraphTransformers)) + 1 && p.paragraphTransformers[len(p.paragraphTransformers) - 1] == v.Value
+  ensures [kept] forall k int {p.paragraphTransformers[k]} :: (0 <= k && k < old(len(p.paragraphTransformers))) ==> p.paragraphTransformers[k] == old(p.paragraphTransformers[k])
+  modifies p.paragraphTransformers, contents(p.paragraphTransformers), pOptState
+// the trigger lists and the list of trigger-less block parsers never share a backing array (they start nil and only grow here)
+macro bpSep(p) = (forall b int, c int {p.blockParsers[b], p.blockParsers[c]} :: (0 <= b && b < 256 && 0 <= c && c < 256 && b != c && arrof(p.blockParsers[b]) != 0) ==> arrof(p.blockParsers[b]) != arrof(p.blockParsers[c])) &&
+                 (forall b int {p.blockParsers[b]} :: (0 <= b && b < 256 && arrof(p.blockParsers[b]) != 0) ==> arrof(p.blockParsers[b]) != arrof(p.freeBlockParsers))
+macro trigKept(p) = forall b int {p.blockParsers[b]} :: (0 <= b && b < 256) ==> (old(len(p.blockParsers[b])) <= len(p.blockParsers[b]) && (forall k int {p.blockParsers[b][k]} :: (0 <= k && k < old(len(p.blockParsers[b]))) ==> p.blockParsers[b][k] == old(p.blockParsers[b][k])))
+macro trigNew(p, x) = forall b int {p.blockParsers[b]} :: (0 <= b && b < 256) ==> (forall k int {p.blockParsers[b][k]} :: (old(len(p.blockParsers[b])) <= k && k < len(p.blockParsers[b])) ==> p.blockParsers[b][k] == x)
+macro freeKept(p) = old(len(p.freeBlockParsers)) <= len(p.freeBlockParsers) && (forall k int {p.freeBlockParsers[k]} :: (0 <= k && k < old(len(p.freeBlockParsers))) ==> p.freeBlockParsers[k] == old(p.freeBlockParsers[k]))
+func (*parser).addBlockParser
+  requires [sep] bpSep(p)
+  ensures [sep] bpSep(p)
+  ensures [trigKept] trigKept(p)
+  ensures [freeKept] freeKept(p)
+  ensures [freeNew] forall k int {p.freeBlockParsers[k]} :: (old(len(p.freeBlockParsers)) <= k && k < len(p.freeBlockParsers)) ==> p.freeBlockParsers[k] == v.Value
+  loop 1 inv bpSep(p) && trigKept(p) && freeKept(p)
+  loop 1 inv bp == v.Value && sameslice(p.freeBlockParsers, old(p.freeBlockParsers))
+
+// Parse's Once closure: components are added in ascending priority (ghost logs of the add* calls), and afterwards every
+// non-empty trigger list ends with the trigger-less block parsers, in their own (ascending) order
+ghost var bpN() int
+ghost var bpPrio(t int) int
+ghost var ipN() int
+ghost var ipPrio(t int) int
+ghost var ptN() int
+ghost var ptPrio(t int) int
+ghost var atN() int
+ghost var atPrio(t int) int
+macro ascLog(n0, n1, prio) = forall s int, t int {prio(s), prio(t)} :: (n0 <= s && s < t && t < n1) ==> prio(s) <= prio(t)
+macro sortedPS(x) = forall a int, b int {x[a].Priority, x[b].Priority} :: (0 <= a && a < b && b < len(x)) ==> x[a].Priority <= x[b].Priority
+func (*parser).Parse$1
+  requires *p != nil && (*p).config != nil && bpSep(*p)
+  // the four logs are local to this run of the closure: each starts empty when its list has been sorted
+  callupdate util.PrioritizedSlice.Sort#1: bpN() = 0
+  callupdate util.PrioritizedSlice.Sort#2: ipN() = 0
+  callupdate util.PrioritizedSlice.Sort#3: ptN() = 0
+  callupdate util.PrioritizedSlice.Sort#4: atN() = 0
+  callupdate parser.(*parser).addBlockParser#1: bpPrio(t) = (t == bpN() ? v.Priority : bpPrio(t))
+  callupdate parser.(*parser).addBlockParser#1: bpN() = bpN() + 1
+  callupdate parser.(*parser).addInlineParser#1: ipPrio(t) = (t == ipN() ? v.Priority : ipPrio(t))
+  callupdate parser.(*parser).addInlineParser#1: ipN() = ipN() + 1
+  callupdate parser.(*parser).addParagraphTransformer#1: ptPrio(t) = (t == ptN() ? v.Priority : ptPrio(t))
+  callupdate parser.(*parser).addParagraphTransformer#1: ptN() = ptN() + 1
+  callupdate parser.(*parser).addASTTransformer#1: atPrio(t) = (t == atN() ? v.Priority : atPrio(t))
+  callupdate parser.(*parser).addASTTransformer#1: atN() = atN() + 1
+  callassert [blockOrderAt] util.PrioritizedSlice.Sort#2: bpN() == len((*p).config.BlockParsers) && (forall s int, t int {bpPrio(s), bpPrio(t)} :: (0 <= s && s < t && t < bpN()) ==> bpPrio(s) <= bpPrio(t))
+  callassert [inlineOrderAt] util.PrioritizedSlice.Sort#3: ipN() == len((*p).config.InlineParsers) && (forall s int, t int {ipPrio(s), ipPrio(t)} :: (0 <= s && s < t && t < ipN()) ==> ipPrio(s) <= ipPrio(t))
+  callassert [paragraphOrderAt] util.PrioritizedSlice.Sort#4: ptN() == len((*p).config.ParagraphTransformers) && (forall s int, t int {ptPrio(s), ptPrio(t)} :: (0 <= s && s < t && t < ptN()) ==> ptPrio(s) <= ptPrio(t))
+  ensures [blockOrder] forall s int, t int {bpPrio(s), bpPrio(t)} :: (0 <= s && s < t && t < bpN()) ==> bpPrio(s) <= bpPrio(t)
+  ensures [inlineOrder] forall s int, t int {ipPrio(s), ipPrio(t)} :: (0 <= s && s < t && t < ipN()) ==> ipPrio(s) <= ipPrio(t)
+  ensures [paragraphOrder] forall s int, t int {ptPrio(s), ptPrio(t)} :: (0 <= s && s < t && t < ptN()) ==> ptPrio(s) <= ptPrio(t)
+  ensures [astOrder] forall s int, t int {atPrio(s), atPrio(t)} :: (0 <= s && s < t && t < atN()) ==> atPrio(s) <= atPrio(t)
+  loop 0 inv *p != nil && (*p).config != nil && (*p).config == old((*p).config) && bpSep(*p) && sortedPS((*p).config.BlockParsers) && bpN() == rangeindex + 1 && rangeindex < len((*p).config.BlockParsers)
+  loop 0 inv forall t int {bpPrio(t)} :: (0 <= t && t < bpN()) ==> bpPrio(t) == (*p).config.BlockParsers[t].Priority
+  loop 1 inv *p != nil && (*p).config != nil && (*p).config == old((*p).config)
+  loop 2 inv *p != nil && (*p).config != nil && (*p).config == old((*p).config) && sortedPS((*p).config.InlineParsers) && ipN() == rangeindex + 1 && rangeindex < len((*p).config.InlineParsers)
+  loop 2 inv forall t int {ipPrio(t)} :: (0 <= t && t < ipN()) ==> ipPrio(t) == (*p).config.InlineParsers[t].Priority
+  loop 3 inv *p != nil && (*p).config != nil && (*p).config == old((*p).config) && sortedPS((*p).config.ParagraphTransformers) && ptN() == rangeindex + 1 && rangeindex < len((*p).config.ParagraphTransformers)
+  loop 3 inv forall t int {ptPrio(t)} :: (0 <= t && t < ptN()) ==> ptPrio(t) == (*p).config.ParagraphTransformers[t].Priority
+  loop 4 inv *p != nil && (*p).config != nil && (*p).config == old((*p).config) && sortedPS((*p).config.ASTTransformers) && atN() == rangeindex + 1 && rangeindex < len((*p).config.ASTTransformers)
+  loop 4 inv forall t int {atPrio(t)} :: (0 <= t && t < atN()) ==> atPrio(t) == (*p).config.ASTTransformers[t].Priority
 @*/
